@@ -244,6 +244,10 @@ def main(ctx):
         ctx.deviation(None, "%s(op=%s, fin=%s, payload %s %s) raised %s" % (e["api"], e["op"], e["fin"], e["ptype"], e["payload_repr"], e["raised"]),
                       {"event": e})
     ev = [e for e in ev if "raised" not in e]
+    dkeys = [tuple(e["head"][-4:]) for e in ev if e["keyKind"] == "default" and "raised" not in e]
+    varies = len(dkeys) < 20 or len(set(dkeys)) >= len(dkeys) * 0.99
+    for e in ev:
+        e["keyVaries"] = bool(varies)
     # successive default-key frames must use distinct draws (a constant or reused key fails)
     dk = [tuple(e["head"][-4:]) for e in ev if e["keyKind"] == "default"]
     ctx.notes["distinct_default_keys"] = "%d of %d" % (len(set(dk)), len(dk))
